@@ -15,6 +15,8 @@ package template
 //@   requires[parsed-file] forall(k, 0, len(soyfile.Body), typeis(soyfile.Body[k], *ast.TemplateNode) ==> unbox(soyfile.Body[k], *ast.TemplateNode).Body != nil)
 //@   modifies *
 //@   ensures[keeps-registry-well-formed] registryOK(r)
+//@   at call store#9 assert[folded-header-param-keeps-its-name;C07] val == param.Name
+//@   at call store#10 assert[folded-header-param-keeps-its-optional-flag;C07] val == param.Optional
 //@   loop 0
 //@     invariant isnil(ns) && forall(k, 0, rangeindex + 1, typeis(soyfile.Body[k], *ast.SoyDocNode)) && -1 <= rangeindex
 //@   loop 1
